@@ -177,7 +177,7 @@ def gen(ch, tier):
         return gen_long_line(ch)
     tree = gen_tree(ch, ch.int(1, 40 if big else 25))
     nchoices = ch.int(0, 60)
-    choices = [ch.int(0, 10) for _ in range(nchoices)]
+    choices = [ch.int(0, 64) for _ in range(nchoices)]
     lay = sexpr.Layout(choices, ch.int(0, 3))
 
     def comment():
